@@ -110,6 +110,7 @@ func newTap(w *World) *Tap {
 		if err == nil {
 			t.eff[name] = cfg.Effective()
 		}
+		w.checkPatternConfig(name, p)
 	}
 	reg("s", toPattern(w.Spec.Server.Pattern), w.Spec.Server.MTU)
 	for i := range w.Spec.Clients {
